@@ -213,6 +213,17 @@ impl<'a> Ctx<'a> {
         self.expect(cond, props, class, detail) == Verdict::Pass
     }
 
+    /// A check whose failure the model can outlive (it knows the canonical reading and keeps to it):
+    /// a violation when the focus property is among `props`, otherwise the run goes on and the failed
+    /// expectation is only counted.  true = go on.
+    pub fn check_for_focus_only(&mut self, cond: bool, props: &[Prop], class: &str, detail: impl FnOnce() -> String) -> bool {
+        if cond || props.contains(&self.focus) || props.iter().any(|p| self.known.find(p, class).is_some()) {
+            return self.check(cond, props, class, detail);
+        }
+        self.count(&format!("sibling_expectation_failed_model_continues.{}", class));
+        true
+    }
+
     pub fn harness(&mut self, msg: String) {
         if self.harness_error.is_none() {
             self.harness_error = Some(format!("step {}: {}", self.step, msg));
